@@ -453,6 +453,7 @@ pub mod binary_codec {
 use binary_codec::{BinaryRequest, BinaryResponse};
 
 //@include wire.rs
+//@include wire_resp.rs
 //@include model_handler.rs
 
 // ---- memcache_server/handler.rs ---------------------------------------------------------------------
@@ -490,12 +491,7 @@ pub mod handler {
 //@endfn
 
 //@fn memcache_server/handler.rs | impl BinaryHandler | handle_request | ret=r | mutself | safety=C10,C11,C12
-        requires
-            h_pre(old(self).storage), req_wf(req_view(req)),
-        ensures
-            store::mc_frame(old(self).storage, final(self).storage), // @ob C01 handle_request.frame
-            r is Some ==> is_resp(r->Some_0),
-            handle_post(req_view(req), old(self).storage, final(self).storage, r), // @ob C01,C02,C05,C06,C07,C08,C11,C12,C13,C19 handle_request.handle_post
+//@contract handle_request.contract
 //@proof 0 | response_header.body_length = MEMCRS_VERSION.len() as u32;
                 proof { axiom_version_short(); }
 //@endfn
@@ -588,6 +584,126 @@ pub mod handler {
 //@endfn
     }
 //@closed memcache_server/handler.rs | impl BinaryHandler
+}
+
+// ---- protocol/binary_codec.rs: the codec as the connection sees it (contracts proved in units codec_dec / codec_enc) ----
+//@items protocol/binary_codec.rs | enum RequestParserState, struct MemcacheBinaryCodec, struct ResponseMessage
+//@include model_decode.rs
+//@include lemmas/framing.rs
+impl MemcacheBinaryCodec {
+//@fn protocol/binary_codec.rs | impl MemcacheBinaryCodec | new | ret=r | safety=C10 | assumed=verus:codec_dec
+//@contract codec_new.contract
+//@endfn
+//@fn protocol/binary_codec.rs | impl Decoder for MemcacheBinaryCodec | decode | ret=r | safety=C10 | assumed=verus:codec_dec | sigsub=Result<Option<BinaryRequest>, io::Error>=>core::result::Result<Option<BinaryRequest>, io::Error>
+//@contract decode.contract
+//@endfn
+//@fn protocol/binary_codec.rs | impl MemcacheBinaryCodec | encode_message | ret=r | safety=C10 | assumed=verus:codec_enc
+//@contract encode_message.contract
+//@endfn
+}
+
+//@include prelude_io.rs
+//@include model_conn.rs
+
+// ---- protocol/binary_connection.rs (R3) ---------------------------------------------------------------
+pub mod binary_connection {
+    use vstd::prelude::*;
+    use super::*;
+    use super::cmp;
+//@items protocol/binary_connection.rs | struct MemcacheBinaryConnection
+
+    pub open spec fn stream_of(c: MemcacheBinaryConnection) -> Seq<u8> { canon_p(c.codec, c.buffer@) + c.stream.wire() }
+    pub open spec fn conn_inv(c: MemcacheBinaryConnection) -> bool { codec_inv(c.codec) }
+    pub open spec fn conn_limit(c: MemcacheBinaryConnection) -> u32 { c.codec.item_size_limit }
+
+    impl MemcacheBinaryConnection {
+//@fn protocol/binary_connection.rs | impl MemcacheBinaryConnection | new | ret=r | safety=C10
+        ensures
+            conn_inv(r) && conn_limit(r) == item_size_limit, // @ob C13 conn.new.limit_plumbed
+            r.stream == socket && r.buffer@ =~= Seq::<u8>::empty(), // @ob C09 conn.new.empty_buffer
+//@endfn
+
+//@fn protocol/binary_connection.rs | impl MemcacheBinaryConnection | read_frame | ret=r | async | safety=C10,C09,C13 | sigsub=Result<Option<BinaryRequest>, io::Error>=>core::result::Result<Option<BinaryRequest>, io::Error>
+        requires
+            conn_inv(*old(self)), !old(self).stream.shut(),
+        ensures
+            conn_inv(*final(self)) || r is Err, // @ob C09 read_frame.inv
+            conn_limit(*final(self)) == conn_limit(*old(self)), // @ob C13 read_frame.limit_kept
+            final(self).stream.sent() == old(self).stream.sent() && final(self).stream.shut() == old(self).stream.shut(), // @ob C12 read_frame.writes_nothing
+            rf_post(stream_of(*old(self)), conn_limit(*old(self)), r, stream_of(*final(self))), // @ob C09,C13,C18 read_frame.rf_post
+//@loop 0
+                invariant
+                    conn_inv(*self), !self.stream.shut(), !old(self).stream.shut(),
+                    conn_limit(*self) == conn_limit(*old(self)),
+                    self.stream.sent() == old(self).stream.sent(),
+                    stream_of(*self) =~= stream_of(*old(self)),
+                decreases self.stream.wire().len(),   // C10: every iteration returns or consumes at least one wire byte
+//@proof 0 | let _extras_length: u32 = 8;
+        hide(decode_post); hide(first_frame); hide(pend); hide(canon_p); hide(hdr_enc); hide(hdr_of);
+//@proof 0 | if let Some(frame) = self.codec.decode(&mut self.buffer)? {
+                let ghost c0 = self.codec; let ghost b0 = self.buffer@; let ghost w0 = self.stream.wire();
+                let ghost p0 = canon_p(self.codec, self.buffer@);
+                let ghost limit = self.codec.item_size_limit;
+                proof { lemma_pend_canon(c0, b0); }
+//@proof 0 | match frame {
+                let ghost c1 = self.codec; let ghost b1 = self.buffer@;
+//@proof 0 | return Ok(Some(BinaryRequest::ItemTooLarge(request)));
+                        proof {
+                            lemma_rf_exit_too_large(p0, w0, limit, frame, c1, b1, buffered as int, self.stream.wire());
+                        }
+//@proof 0 | return Ok(Some(frame));
+                        proof { lemma_rf_exit_frame(p0, w0, limit, frame, c1, b1); }
+//@proof 0 | if 0 == self.stream.read_buf(&mut self.buffer)? {
+            let ghost c1x = self.codec; let ghost b1x = self.buffer@;
+            proof {
+                lemma_rf_needmore(p0, limit, self.codec, self.buffer@);
+                assert forall|x: Seq<u8>| #[trigger] canon_p(c1x, b1x + x) =~= canon_p(c1x, b1x) + x by { lemma_canon_append(c1x, b1x, x); }
+            }
+//@proof 0 | if self.buffer.is_empty() {
+                proof { lemma_rf_exit_eof(p0, w0, limit); }
+//@endfn
+
+//@fn protocol/binary_connection.rs | impl MemcacheBinaryConnection | skip_bytes | ret=r | async | safety=C10,C13
+        requires
+            !old(self).stream.shut(),
+        ensures
+            final(self).codec == old(self).codec && final(self).buffer == old(self).buffer, // @ob C13 skip_bytes.frame
+            final(self).stream.sent() == old(self).stream.sent() && final(self).stream.shut() == old(self).stream.shut(), // @ob C12 skip_bytes.writes_nothing
+            r is Ok ==> final(self).stream.wire() =~= old(self).stream.wire().subrange(min_int(bytes as int, old(self).stream.wire().len() as int), old(self).stream.wire().len() as int), // @ob C13 skip_bytes.consumes_exactly
+//@loop 0
+            invariant
+                bytes > 0, buffer_size == 65536, bytes_counter < bytes,
+                self.codec == old(self).codec && self.buffer == old(self).buffer,
+                self.stream.sent() == old(self).stream.sent(), !self.stream.shut(), !old(self).stream.shut(),
+                buffer@.len() == 0, 0 < buffer.cap() <= bytes - bytes_counter, buffer.cap() <= 65536,   // C10: scratch space is at most 64 KiB
+                bytes_counter <= old(self).stream.wire().len(),
+                self.stream.wire() =~= old(self).stream.wire().subrange(bytes_counter as int, old(self).stream.wire().len() as int),
+            decreases bytes - bytes_counter,
+//@endfn
+
+//@fn protocol/binary_connection.rs | impl MemcacheBinaryConnection | write | ret=r | async | safety=C10,C11
+        ensures
+            final(self).codec == old(self).codec && final(self).buffer == old(self).buffer, // @ob C11 conn.write.frame
+            final(self).stream.wire() == old(self).stream.wire() && final(self).stream.shut() == old(self).stream.shut(), // @ob C11 conn.write.reads_nothing
+            r is Ok ==> final(self).stream.sent() =~= old(self).stream.sent() + wire_bytes(*msg), // @ob C11,C12 conn.write.whole_frame
+            r is Err ==> partial_write(old(self).stream.sent(), final(self).stream.sent(), wire_bytes(*msg)), // @ob C12 conn.write.prefix_on_error
+//@endfn
+
+//@fn protocol/binary_connection.rs | impl MemcacheBinaryConnection | write_data_to_stream | ret=r | async | safety=C10,C11
+        ensures
+            final(self).codec == old(self).codec && final(self).buffer == old(self).buffer, // @ob C11 conn.write_data.frame
+            final(self).stream.wire() == old(self).stream.wire() && final(self).stream.shut() == old(self).stream.shut(), // @ob C11 conn.write_data.reads_nothing
+            r is Ok ==> final(self).stream.sent() =~= old(self).stream.sent() + msg.data@, // @ob C11 conn.write_data.whole
+            r is Err ==> partial_write(old(self).stream.sent(), final(self).stream.sent(), msg.data@), // @ob C12 conn.write_data.prefix_on_error
+//@endfn
+
+//@fn protocol/binary_connection.rs | impl MemcacheBinaryConnection | shutdown | ret=r | async | safety=C10,C12
+        ensures
+            final(self).codec == old(self).codec && final(self).buffer == old(self).buffer, // @ob C12 conn.shutdown.frame
+            final(self).stream.shut() && final(self).stream.sent() == old(self).stream.sent() && final(self).stream.wire() == old(self).stream.wire(), // @ob C12 conn.shutdown.marks_closed
+//@endfn
+    }
+//@closed protocol/binary_connection.rs | impl MemcacheBinaryConnection
 }
 
 } // verus!
